@@ -15,6 +15,7 @@ func init() { Registry["C18"] = c18 }
 
 func c18(r *Report) {
 	p := r.P
+	defer c18Audit4(r)
 	didPkg := goDid + "/did"
 	r.Explanation = "Static decision of the structural conditions that bind a resolved document to its identifier and origin: (1) did:web: Resolve succeeds only via DIDToURL, the HTTP call, a 2xx status, an accepted content type, JSON decoding and document.ID.Equals(id); DIDToURL succeeds only via method 'web', no empty path segment, unescaping, url.Parse, parsed host == unescaped id (no user-info, port smuggling or path in the host) and 'not an IP address', and the URL is built from the constant \"https://\"; the resolver's client is the strict HTTP client; (2) did:jwk and did:key: Resolve is effect-free (no network, storage, clock or randomness in its transitive callees), stores the parameter id into document.ID, and did:jwk refuses private keys; (3) local first: the did:web chain is [own database, web] in that order and the chain moves on only on ErrNotFound; the own-database resolver reaches no network code; (4) a deactivated DID resolves only when the caller allows it (did:web/subject store and did:nuts store)."
 	r.NotDecided = []string{"the round-trip law URLToDID(DIDToURL(d)) = d (string algebra)", "HTTP redirects followed by the client", "DNS"}
@@ -92,7 +93,8 @@ func c18(r *Report) {
 	c18HostSegmentIsWholeHost(r)
 	c18X509(r)
 	c18AuditFixes(r, wr)
-	r.ArgIs("C18.url.ip-test-on-hostname", p.Func("vdr/didweb", "", "DIDToURL"), Fn("std:net", "", "ParseIP"), 0, CallV(Fn("std:net/url", "URL", "Hostname"), -1), 1)
+	// the IP test looks at the host name (without port); since the IDNA repair the test is isIPAddress, which maps the name first
+	r.ArgIs("C18.url.ip-test-on-hostname", p.Func("vdr/didweb", "", "DIDToURL"), Fn("vdr/didweb", "", "isIPAddress"), 0, CallV(Fn("std:net/url", "URL", "Hostname"), -1), 1)
 }
 
 // c18SchemeNeverRewritten: in vdr/didweb no url.URL.Scheme is ever assigned anything but the constant "https"
